@@ -61,7 +61,7 @@ def _mps_body(a, ids, title="changed title"):
 
 
 def op_table():
-    """name -> (group, csrf service or None, method, rule, fn(api, ids, world, csrf) -> Resp)"""
+    """name -> (group, csrf service or None, method, rule, fn(api, ids, csrf) -> Resp)"""
     from .. import mgmt
     w = world()
     return {
